@@ -1282,6 +1282,10 @@ func (e *EngineImpl) CreateShard(db, rp string, ptId uint32, shardID uint64, tim
 	defer dbPTInfo.mu.Unlock()
 	_, ok := dbPTInfo.shards[shardID]
 	if !ok {
+		if _, deleting := dbPTInfo.pendingShardDeletes[shardID]; deleting {
+			// DeleteShard is still closing this shard and removing its directories
+			return fmt.Errorf("shard %d is being deleted", shardID)
+		}
 		if dbPTInfo.HasCoverShard(timeRangeInfo, rp, shardID) {
 			e.log.Error("create a merged shard", zap.String("db", db), zap.String("rp", rp), zap.Uint32("ptId", ptId),
 				zap.Uint64("shardId", shardID), zap.Time("startTime", timeRangeInfo.TimeRange.StartTime), zap.Time("endTime", timeRangeInfo.TimeRange.EndTime))
